@@ -52,7 +52,24 @@ def run(chk: Check):
             inst._initialized = ini
             ref_hist = []
             bad = False
+            # another object of the same class, for another receiver, alive in the same process: created before,
+            # or in the middle of, this history and told different things; neither may show in the other
+            sib = None
+            sib_at = rng.randrange(0, len(h) + 1) if (h and rng.random() < 0.3) else None
+            sib_hist = []
             for i, m in enumerate(h):
+                if sib_at is not None and i == sib_at:
+                    sconn = make_connection()
+                    sib = cls(sconn)
+                    sib._initialized = True
+                if sib is not None and rng.random() < 0.6:
+                    sm = SC.gen_history(rng, cid, funcs, all_ids, rec_by, 1)
+                    for x in sm:
+                        try:
+                            deliver(sconn, x)
+                            sib_hist.append(x)
+                        except Exception:  # noqa: judged on the primary path
+                            pass
                 try:
                     deliver(conn, m)
                 except Exception as e:  # noqa
@@ -83,6 +100,23 @@ def run(chk: Check):
                             bad = True
                     if len(conn._protocol.sent) != sent0:
                         chk.violation(f"{cls.__name__}:read-transmits", f"reading attributes of {cls.__name__} transmitted {conn._protocol.sent[sent0:]!r}", {"class": cls.__name__, "history": ref_hist})
+            if sib is not None and not bad:
+                dist["with_second_object"] = dist.get("with_second_object", 0) + 1
+                sref = reference(cls, cid, funcs, sib_hist)
+                for attr, f in funcs:
+                    from ynca.function import Cmd
+
+                    if Cmd.GET not in f.cmd:
+                        continue
+                    got = canon_value(getattr(sib, attr))
+                    if got != sref[f.name]:
+                        chk.violation(
+                            f"{cls.__name__}.{attr}:two-objects",
+                            f"a second {cls.__name__} object (another receiver) reads {attr} = {got!r}; the last value reported to IT decodes to {sref[f.name]!r}",
+                            {"class": cls.__name__, "attr": attr, "history": ref_hist, "second_object_history": sib_hist, "second_object_created_at": sib_at},
+                        )
+                        bad = True
+                        break
             chk.count_case(["hist", cid, ini, h], any(m[1] and m[1][0] == cid for m in h) and len(h) >= 3)
             if not bad:
                 final = [(name, canon_value(hd.value)) for name, hd in inst.function_handlers.items()]
